@@ -36,6 +36,11 @@ def sim_family(ctx, simname, fam, famname, text, function, reps=2, nsteps=6, ext
             if extra:
                 t.update(extra)
             tasks.append(t)
+        if simname == 'Simulation' and not extra:
+            # inputs handed over as Python bools; a tracer that follows the Outputs only, every wire read by inspect()
+            for md in ('bools', 'track_outputs'):
+                tasks.append(dict(design=d, simname=simname, seed=ctx.seed * 100 + 7, nsteps=nsteps, use_init=1,
+                                  default_value=0, mode=md))
     res = passcheck.pmap(_sim_case, tasks)
     wires = 0
     for t, r in zip(tasks, res):
